@@ -50,9 +50,17 @@ type TableSpec struct {
 
 // CbSpec is one RegisterPropertyCallback call with a callback that does nothing.
 type CbSpec struct {
-	OnColumn0 bool `json:"on_column_0,omitempty"` // else on the table
-	Time      int  `json:"time"`                  // 0 add, 1 pre-cell, 2 render, 3 post-cell
-	Target    int  `json:"target"`                // 0 itself, 1 cell, 2 row
+	OnColumn0 bool `json:"on_column_0,omitempty"`                 // else on the table
+	Time      int  `json:"time"`                                  // 0 add, 1 pre-cell, 2 render, 3 post-cell
+	Target    int  `json:"target"`                                // 0 itself, 1 cell, 2 row
+	Fails     bool `json:"returns_an_error_every_time,omitempty"` // a validator: its findings go to the table's error list, and the render goes on
+}
+
+type failingCallback struct{ n *int }
+
+func (c failingCallback) UpdateProperties(tabular.PropertyOwner) error {
+	*c.n++
+	return fmt.Errorf("finding %d of a validating callback the application registered", *c.n)
 }
 
 type noopCallback struct{ n *int }
@@ -72,6 +80,10 @@ func (s *TableSpec) registerBystanders(t tabular.Table) {
 		if b.OnColumn0 {
 			owner = t.Column(0)
 		}
+		if b.Fails {
+			t.RegisterPropertyCallback(owner, cbTimes[b.Time%len(cbTimes)], cbTargets[b.Target%len(cbTargets)], failingCallback{new(int)})
+			continue
+		}
 		t.RegisterPropertyCallback(owner, cbTimes[b.Time%len(cbTimes)], cbTargets[b.Target%len(cbTargets)], noopCallback{new(int)})
 	}
 }
@@ -88,10 +100,11 @@ type PropSpec struct {
 
 // Which library-defined properties may be sprinkled: a check passes the ones its renderer is documented NOT to read.
 const (
-	NoiseSkipable       = 1 << iota // properties.Skipable (documented for JSON only)
-	NoiseAlign                      // align.PropertyType (documented for text tables and Markdown only)
-	NoiseCallbacks                  // callbacks that do nothing, on the table or column 0
-	NoiseAlignElsewhere             // align.PropertyType with alignment values on the table, on rows and on cells: anywhere but on columns
+	NoiseSkipable         = 1 << iota // properties.Skipable (documented for JSON only)
+	NoiseAlign                        // align.PropertyType (documented for text tables and Markdown only)
+	NoiseCallbacks                    // callbacks that do nothing, on the table or column 0
+	NoiseFailingCallbacks             // render-time callbacks that return an error on every call (validators): the errors are the error list's business, the render is not refused
+	NoiseAlignElsewhere               // align.PropertyType with alignment values on the table, on rows and on cells: anywhere but on columns
 )
 
 func (p *PropSpec) key() interface{} {
@@ -649,6 +662,13 @@ func (r *R) Table(o TableOpts) TableSpec {
 			}
 			s.Bystanders = append(s.Bystanders, b)
 		}
+	}
+	if o.Noise&NoiseFailingCallbacks != 0 && r.Chance(1, 5) {
+		b := CbSpec{OnColumn0: r.Bool(), Time: r.Range(1, 3), Target: r.Intn(3), Fails: true}
+		if b.OnColumn0 && b.Target == 2 {
+			b.Target = 1
+		}
+		s.Bystanders = append(s.Bystanders, b)
 	}
 	return s
 }
